@@ -190,3 +190,15 @@ func VP_C14_pb_skeleton() {
 	pb := ParsePBConstrs(constrs)
 	vpSolveCheck(pb, refs, n)
 }
+
+// VP_C14_probe: a concrete instance run with cutting planes under the monitor (diagnosis aid).
+func VP_C14_probe() {
+	zzvp.IntMode(true)
+	refs := []vpRef{{[]int{-2, 4, 1, 3}, []int{1, 1, 1, 1}, 0, 2}, {[]int{2, -4, -3}, []int{1, 1, 1}, 0, 2}}
+	var cs []PBConstr
+	for _, r := range refs {
+		cs = append(cs, GtEq(vpCopy(r.lits), vpCopy(r.ws), r.d))
+	}
+	pb := ParsePBConstrs(cs)
+	vpSolveCheck(pb, refs, 4)
+}
